@@ -1,7 +1,469 @@
-(* C06 — graph optimisation preserves meaning and interface.  (theorems: see Proofs/OptProofs.v) *)
-From CC Require Import Base.Prelude Base.Scalar Base.Ty Base.Shape Graph.Value Graph.IR Graph.Eval Model.Opt.
+(* C06 — graph optimisation preserves meaning and interface.
+   Statements about the pass models of Model/Opt.v (tied literally to optimize_context on every
+   run), for EVERY node list.  Vocabulary (Proofs/OptSem.v, OptSim.v):
+     valuation sem ft nodes tape vals : vals assigns to every position i the tape entry (ft op) or
+                                        sem op (types of deps) ty (values of deps)
+     sim nodes out vals vals' m       : for every i with m[i] = Some j: vals'[j] = vals[i] and the
+                                        nodes i, j have the same type
+     tape_compat ft nodes m tape tape': tape' j = tape i for every tape node i with m[i] = Some j
+     transport m tape                 : tape' j = tape i for the first i with m[i] = Some j
+     input_sigs nodes                 : (operation, annotations, type) of the Input nodes, in order
+     keeps nodes out m                : every mapped node keeps operation, annotations and type
+   What is not proved is kept visible as C06_meta_sem_full and C06_optimize_sem_full. *)
+From CC Require Import Base.Prelude Base.Scalar Base.Ty Base.Shape Graph.Value Graph.IR Graph.Eval Model.Opt
+  Proofs.OptBase Proofs.OptSem Proofs.OptSim Proofs.OptFresh Proofs.OptDangling Proofs.OptDup
+  Proofs.OptConst Proofs.OptMeta Proofs.OptMetaSem Proofs.OptPipe Proofs.OptProofs.
 
 (* the chained mapping only relates nodes that every pass still maps *)
 Theorem C06_join_maps_length : forall m1 m2, length (join_maps m1 m2) = length m1.
 Proof. intros. unfold join_maps. apply map_length. Qed.
+
+(* ---------------------------------------------------------------- A: what evaluation means *)
+(* eval_graph_nodes returns vals exactly when vals has one entry per node and entry i is the
+   tape entry i (tape operations) or eval_node on the types and values of the dependencies, all
+   of which precede i *)
+Theorem C06_eval_characterised : forall nodes tape vals,
+  eval_graph_nodes nodes tape = Ok vals <->
+  (length vals = length nodes /\
+   forall i nd v, nth_error nodes i = Some nd -> nth_error vals i = Some v ->
+     if from_tape (n_op nd) then tape (Z.of_nat i) = Some v
+     else exists vs dts,
+         mapM (dep_get vals i) (n_deps nd) = Ok vs /\
+         mapM (dep_get (map n_ty nodes) i) (n_deps nd) = Ok dts /\
+         eval_node (n_op nd) dts (n_ty nd) vs = Ok v).
+Proof. exact eval_graph_nodes_valuation. Qed.
+
+(* the same for any node semantics: the generic forward evaluator and the valuation predicate *)
+Theorem C06_geval_characterised : forall sem ft nodes tape vals,
+  geval sem ft nodes tape = Ok vals <-> valuation sem ft nodes tape vals.
+Proof. exact geval_valuation. Qed.
+Theorem C06_eval_is_geval : forall nodes tape,
+  eval_graph_nodes nodes tape = geval eval_node from_tape nodes tape.
+Proof. exact eval_graph_nodes_geval. Qed.
+Theorem C06_valuation_deterministic : forall sem ft nodes tape vals1 vals2,
+  valuation sem ft nodes tape vals1 -> valuation sem ft nodes tape vals2 -> vals1 = vals2.
+Proof. exact valuation_fun. Qed.
+
+(* ---------------------------------------------------------------- B: dangling nodes *)
+Theorem C06_dangling_sem : forall nodes outp p tape vals,
+  opt_dangling nodes (Some outp) = Ok p ->
+  eval_graph_nodes nodes tape = Ok vals ->
+  exists vals', eval_graph_nodes (po_nodes p) (transport (po_map p) tape) = Ok vals' /\
+                sim nodes (po_nodes p) vals vals' (po_map p) /\
+                (0 <= outp < Z.of_nat (length nodes) ->
+                 exists j, po_output p = Some j /\ nth_error (po_map p) (Z.to_nat outp) = Some (Some j)).
+Proof. exact dangling_sem_transport. Qed.
+
+(* parametric in the node semantics and in the set of tape operations *)
+Theorem C06_dangling_sem_generic : forall sem ft nodes outp p tape vals,
+  opt_dangling nodes (Some outp) = Ok p ->
+  valuation sem ft nodes tape vals ->
+  forall tape', tape_compat ft nodes (po_map p) tape tape' ->
+    exists vals', valuation sem ft (po_nodes p) tape' vals' /\ sim nodes (po_nodes p) vals vals' (po_map p).
+Proof. exact dangling_sem. Qed.
+
+(* map length, images in range, no two nodes share an image, kept nodes keep operation,
+   annotations and type, and the Input nodes are unchanged (unused ones included) *)
+Theorem C06_dangling_inputs_annots : forall nodes outp p,
+  opt_dangling nodes (Some outp) = Ok p ->
+  length (po_map p) = length nodes /\
+  bounded (po_map p) (length (po_nodes p)) /\ inj_map (po_map p) /\
+  keeps nodes (po_nodes p) (po_map p) /\
+  input_sigs (po_nodes p) = input_sigs nodes /\
+  (0 <= outp < Z.of_nat (length nodes) -> nth_error (po_map p) (Z.to_nat outp) = Some (po_output p)).
+Proof. exact dangling_struct. Qed.
+
+(* ---------------------------------------------------------------- C: duplicates *)
+(* typed_nodes infer nodes: dependencies precede the node and n_ty = infer op (types of deps) *)
+Theorem C06_dup_sem : forall infer nodes o p,
+  typed_nodes infer nodes -> opt_dup nodes o = Ok p ->
+  forall tape vals, eval_graph_nodes nodes tape = Ok vals ->
+  forall tape', tape_compat from_tape nodes (po_map p) tape tape' ->
+  exists vals', eval_graph_nodes (po_nodes p) tape' = Ok vals' /\
+                sim nodes (po_nodes p) vals vals' (po_map p).
+Proof. exact dup_sem_ok. Qed.
+
+(* with the transported tape, when no tape operation has a de-duplication key (Input, Random,
+   PRF nodes never have one; the opaque deterministic operations CuckooHash/Shard/Join/Sort do,
+   and merging two of them is only meaningful under a tape that is a function of their inputs,
+   which C06_dup_sem expresses through tape_compat) *)
+Theorem C06_dup_sem_transport : forall infer nodes o p tape vals,
+  typed_nodes infer nodes ->
+  (forall nd deps, In nd nodes -> from_tape (n_op nd) = true -> node_key nd deps = Ok None) ->
+  opt_dup nodes o = Ok p ->
+  eval_graph_nodes nodes tape = Ok vals ->
+  exists vals', eval_graph_nodes (po_nodes p) (transport (po_map p) tape) = Ok vals' /\
+                sim nodes (po_nodes p) vals vals' (po_map p) /\
+                (forall x, o = Some x -> 0 <= x < Z.of_nat (length nodes) ->
+                           nth_error (po_map p) (Z.to_nat x) = Some (po_output p)).
+Proof. exact dup_sem_transport. Qed.
+
+Theorem C06_dup_sem_generic : forall sem ft infer nodes o p tape vals,
+  typed_nodes infer nodes ->
+  opt_dup nodes o = Ok p ->
+  valuation sem ft nodes tape vals ->
+  forall tape', tape_compat ft nodes (po_map p) tape tape' ->
+    exists vals', valuation sem ft (po_nodes p) tape' vals' /\ sim nodes (po_nodes p) vals vals' (po_map p).
+Proof. exact dup_sem_thm. Qed.
+
+Theorem C06_dup_inputs : forall nodes o p, opt_dup nodes o = Ok p ->
+  length (po_map p) = length nodes /\ input_sigs (po_nodes p) = input_sigs nodes /\
+  fresh_spec nodes (po_nodes p) (po_map p).
+Proof. exact dup_basic_thm. Qed.
+
+Theorem C06_dup_annots : forall ft infer nodes o p,
+  typed_nodes infer nodes ->
+  opt_dup nodes o = Ok p ->
+  length (po_map p) = length nodes /\
+  bounded (po_map p) (length (po_nodes p)) /\
+  keeps nodes (po_nodes p) (po_map p) /\
+  input_sigs (po_nodes p) = input_sigs nodes /\
+  fresh_spec nodes (po_nodes p) (po_map p) /\
+  (forall x, o = Some x -> 0 <= x < Z.of_nat (length nodes) ->
+             nth_error (po_map p) (Z.to_nat x) = Some (po_output p)) /\
+  ((forall nd deps, In nd nodes -> ft (n_op nd) = true -> node_key nd deps = Ok None) ->
+   ft_first ft nodes (po_map p)).
+Proof. exact dup_struct_thm. Qed.
+
+(* ---------------------------------------------------------------- D: constants *)
+(* const_typed nodes: a Constant node has the type of its literal *)
+Theorem C06_const_sem : forall nodes o p tape vals,
+  const_typed nodes ->
+  opt_const nodes o = Ok p ->
+  eval_graph_nodes nodes tape = Ok vals ->
+  exists vals', eval_graph_nodes (po_nodes p) (transport (po_map p) tape) = Ok vals' /\
+                sim nodes (po_nodes p) vals vals' (po_map p) /\
+                (forall x, o = Some x -> 0 <= x < Z.of_nat (length nodes) ->
+                           nth_error (po_map p) (Z.to_nat x) = Some (po_output p)).
+Proof. exact const_sem_transport. Qed.
+
+Theorem C06_const_inputs : forall nodes o p, opt_const nodes o = Ok p ->
+  length (po_map p) = length nodes /\ input_sigs (po_nodes p) = input_sigs nodes /\
+  fresh_spec nodes (po_nodes p) (po_map p).
+Proof. exact const_basic_thm. Qed.
+
+(* every node keeps its type; an annotated node keeps operation and annotations (is never
+   folded); any other node keeps its operation or becomes a Constant of its own type *)
+Theorem C06_const_annots : forall nodes o p, const_typed nodes -> opt_const nodes o = Ok p ->
+  forall i j nd, nth_error nodes i = Some nd -> nth_error (po_map p) i = Some (Some j) ->
+    exists nd', nth_error (po_nodes p) (Z.to_nat j) = Some nd' /\ n_ty nd' = n_ty nd /\
+                (n_annots nd <> [] -> n_op nd' = n_op nd /\ n_annots nd' = n_annots nd) /\
+                (n_op nd' = n_op nd \/ exists v, n_op nd' = OConstant (n_ty nd) v).
+Proof. exact const_annots. Qed.
+
+(* ---------------------------------------------------------------- E: meta operations *)
+(* proved: interface (operation and type of the Input nodes, in order), freshness, output;
+   annotations of a resolved getter are appended to the node it resolves to, so an Input node
+   can gain annotations: the statement is about (operation, type) *)
+Theorem C06_meta_inputs : forall nodes o p,
+  opt_meta nodes o = Ok p ->
+  length (po_map p) = length nodes /\
+  input_tys (po_nodes p) = input_tys nodes /\
+  fresh_spec nodes (po_nodes p) (po_map p) /\
+  (forall x, o = Some x -> 0 <= x < Z.of_nat (length nodes) ->
+             nth_error (po_map p) (Z.to_nat x) = Some (po_output p)).
+Proof. exact meta_struct_thm. Qed.
+
+(* Value preservation for graphs WITHOUT ArrayToVector and Zip: TupleGet of CreateTuple,
+   NamedTupleGet of CreateNamedTuple and VectorGet (constant U64 index) of CreateVector are
+   replaced by the element; a VectorGet on an unknown vector is re-emitted on the mapped operands;
+   A2B (B2A st x) is replaced by x, and B2A st (A2B x) by x when st is the scalar type of x.
+   meta_hyps nodes: Constant nodes have the type of their literal, every node has fewer than 2^64
+   dependencies (true of any Rust Vec), ArrayToVector and Zip do not occur, and constructors,
+   getters, A2B and B2A carry the type the graph builder gives them (meta_typed).  If the graph
+   contains A2B or B2A, the values of the run must be well typed (vals_typed; the round trips are
+   the identity only on normalised elements resp. on bits). *)
+Theorem C06_meta_sem_partial : forall nodes o p tape vals,
+  meta_hyps nodes ->
+  (bits_ops nodes -> vals_typed nodes vals) ->
+  opt_meta nodes o = Ok p ->
+  eval_graph_nodes nodes tape = Ok vals ->
+  exists vals', eval_graph_nodes (po_nodes p) (transport (po_map p) tape) = Ok vals' /\
+                sim nodes (po_nodes p) vals vals' (po_map p) /\
+                (forall x, o = Some x -> 0 <= x < Z.of_nat (length nodes) ->
+                           nth_error (po_map p) (Z.to_nat x) = Some (po_output p)).
+Proof. exact meta_sem_transport. Qed.
+
+(* NOT proved: the same without the restriction `simple_meta` (VectorGet of Zip and of
+   ArrayToVector, which create Get / GetSlice / CreateTuple nodes). *)
+Definition C06_meta_sem_full : Prop := forall nodes o p tape vals,
+  const_typed nodes -> meta_typed nodes -> vals_typed nodes vals ->
+  opt_meta nodes o = Ok p ->
+  eval_graph_nodes nodes tape = Ok vals ->
+  exists vals', eval_graph_nodes (po_nodes p) (transport (po_map p) tape) = Ok vals' /\
+                sim nodes (po_nodes p) vals vals' (po_map p).
+
+(* ---------------------------------------------------------------- F: the pipeline *)
+Theorem C06_optimize_inputs : forall nodes o p,
+  optimize_graph nodes o = Ok p -> input_tys (po_nodes p) = input_tys nodes.
+Proof. exact optimize_inputs. Qed.
+
+(* values are preserved along the joined map for every stage-wise compatible chain of tapes,
+   GIVEN value preservation of the meta stage and typedness of the graph entering de-duplication *)
+Theorem C06_optimize_sem_partial : forall infer nodes o p,
+  optimize_graph nodes o = Ok p ->
+  const_typed nodes ->
+  exists p1 p2 p3 p4,
+    opt_const nodes o = Ok p1 /\ opt_meta (po_nodes p1) (po_output p1) = Ok p2 /\
+    opt_dup (po_nodes p2) (po_output p2) = Ok p3 /\ opt_dangling (po_nodes p3) (po_output p3) = Ok p4 /\
+    (pass_sem_ok (po_nodes p1) p2 -> typed_nodes infer (po_nodes p2) ->
+     forall t0 t1 t2 t3 t4 vals,
+       eval_graph_nodes nodes t0 = Ok vals ->
+       tape_compat from_tape nodes (po_map p1) t0 t1 ->
+       tape_compat from_tape (po_nodes p1) (po_map p2) t1 t2 ->
+       tape_compat from_tape (po_nodes p2) (po_map p3) t2 t3 ->
+       tape_compat from_tape (po_nodes p3) (po_map p4) t3 t4 ->
+       exists vals', eval_graph_nodes (po_nodes p) t4 = Ok vals' /\
+                     sim nodes (po_nodes p) vals vals' (po_map p)).
+Proof. exact optimize_sem_chain. Qed.
+
+(* the same with the tapes transported stage by stage; the hypotheses on the two intermediate
+   graphs (meta_hyps for the graph entering the meta pass; typedness and absence of keyed tape
+   operations for the graph entering de-duplication) are NOT derived from the input graph here *)
+Theorem C06_optimize_sem_transport_partial : forall infer nodes o p tape vals,
+  optimize_graph nodes o = Ok p ->
+  const_typed nodes ->
+  eval_graph_nodes nodes tape = Ok vals ->
+  exists p1 p2 p3 p4,
+    opt_const nodes o = Ok p1 /\ opt_meta (po_nodes p1) (po_output p1) = Ok p2 /\
+    opt_dup (po_nodes p2) (po_output p2) = Ok p3 /\ opt_dangling (po_nodes p3) (po_output p3) = Ok p4 /\
+    (meta_hyps (po_nodes p1) -> ~ bits_ops (po_nodes p1) -> typed_nodes infer (po_nodes p2) ->
+     (forall nd deps, In nd (po_nodes p2) -> from_tape (n_op nd) = true -> node_key nd deps = Ok None) ->
+     exists vals', eval_graph_nodes (po_nodes p)
+                     (transport (po_map p4) (transport (po_map p3) (transport (po_map p2) (transport (po_map p1) tape))))
+                   = Ok vals' /\
+                   sim nodes (po_nodes p) vals vals' (po_map p)).
+Proof. exact optimize_sem_transport. Qed.
+
+(* The pipeline with hypotheses on the INPUT graph and run only, for graphs without ArrayToVector
+   and Zip (simple_ops) and without tape operations that have a de-duplication key (nokey: no
+   CuckooHash / Shard / Join / Sort / ...): the graph is typed by an inference function infer
+   that gives a Constant the type of its literal (typed_nodes, infer_const), Constant nodes carry
+   the literal's type, constructors, getters, A2B and B2A carry the builder's types (meta_typed),
+   nodes have fewer than 2^64 dependencies, and the values of the run are well typed
+   (vals_typed; type soundness of evaluation is C09).  Then the optimized graph evaluates under
+   the tape transported stage by stage, every node in the domain of the joined map keeps its
+   value and type, and the new output is the image of the old output and has its value. *)
+Theorem C06_optimize_sem_partial_simple : forall infer nodes o p tape vals,
+  infer_const infer -> typed_nodes infer nodes ->
+  const_typed nodes -> few_deps nodes -> simple_ops nodes -> meta_typed nodes -> nokey nodes ->
+  optimize_graph nodes o = Ok p ->
+  eval_graph_nodes nodes tape = Ok vals ->
+  vals_typed nodes vals ->
+  exists p1 p2 p3 p4,
+    opt_const nodes o = Ok p1 /\ opt_meta (po_nodes p1) (po_output p1) = Ok p2 /\
+    opt_dup (po_nodes p2) (po_output p2) = Ok p3 /\ opt_dangling (po_nodes p3) (po_output p3) = Ok p4 /\
+    exists vals', eval_graph_nodes (po_nodes p)
+                    (transport (po_map p4) (transport (po_map p3) (transport (po_map p2) (transport (po_map p1) tape))))
+                  = Ok vals' /\
+                  sim nodes (po_nodes p) vals vals' (po_map p) /\
+                  exists x j v, o = Some x /\ po_output p = Some j /\ 0 <= x /\ 0 <= j /\
+                                nth_error (po_map p) (Z.to_nat x) = Some (Some j) /\
+                                nth_error vals (Z.to_nat x) = Some v /\ nth_error vals' (Z.to_nat j) = Some v.
+Proof. exact optimize_sem_simple_output. Qed.
+
+(* annotations (Send, Private, ...): the image of every node in the domain of the pipeline's map
+   carries all annotations of the node (annots_incl), for the same class of graphs.  In the meta
+   pass the annotations of a resolved getter are appended to the element it resolves to. *)
+Theorem C06_optimize_annots_partial : forall infer nodes o p tape vals,
+  infer_const infer -> typed_nodes infer nodes ->
+  const_typed nodes -> few_deps nodes -> simple_ops nodes -> meta_typed nodes ->
+  optimize_graph nodes o = Ok p ->
+  eval_graph_nodes nodes tape = Ok vals ->
+  vals_typed nodes vals ->
+  forall i j, nth_error (po_map p) i = Some (Some j) ->
+    exists nd nd', nth_error nodes i = Some nd /\ 0 <= j /\ nth_error (po_nodes p) (Z.to_nat j) = Some nd' /\
+                   incl (n_annots nd) (n_annots nd').
+Proof. exact optimize_annots. Qed.
+Theorem C06_meta_annots_partial : forall nodes o p tape vals,
+  meta_hyps nodes -> (bits_ops nodes -> vals_typed nodes vals) ->
+  opt_meta nodes o = Ok p -> eval_graph_nodes nodes tape = Ok vals ->
+  forall i j, nth_error (po_map p) i = Some (Some j) ->
+    exists nd nd', nth_error nodes i = Some nd /\ 0 <= j /\ nth_error (po_nodes p) (Z.to_nat j) = Some nd' /\
+                   incl (n_annots nd) (n_annots nd').
+Proof. exact meta_annots. Qed.
+(* full statement: the same for every typed graph, not only those without ArrayToVector / Zip *)
+Definition C06_optimize_annots_full : Prop := forall infer nodes o p,
+  typed_nodes infer nodes -> const_typed nodes -> optimize_graph nodes o = Ok p ->
+  annots_incl nodes (po_nodes p) (po_map p).
+
+(* the constant pass preserves these hypotheses (so they need only be assumed of the input);
+   well-typedness of the values is preserved too (const_preserves_vals_typed) *)
+Theorem C06_const_preserves_hyps : forall infer nodes o p,
+  const_typed nodes -> opt_const nodes o = Ok p ->
+  const_typed (po_nodes p) /\
+  (few_deps nodes -> few_deps (po_nodes p)) /\
+  (simple_ops nodes -> simple_ops (po_nodes p)) /\
+  (nokey nodes -> nokey (po_nodes p)) /\
+  (infer_const infer -> typed_nodes infer nodes ->
+   typed_nodes infer (po_nodes p) /\ (meta_typed nodes -> meta_typed (po_nodes p))).
+Proof. exact const_preserves. Qed.
+
+Definition C06_optimize_sem_full : Prop := forall infer nodes o p tape vals,
+  typed_nodes infer nodes -> const_typed nodes ->
+  optimize_graph nodes o = Ok p ->
+  eval_graph_nodes nodes tape = Ok vals ->
+  exists vals', eval_graph_nodes (po_nodes p) (transport (po_map p) tape) = Ok vals' /\
+                sim nodes (po_nodes p) vals vals' (po_map p).
+
+(* ---------------------------------------------------------------- non-vacuity *)
+Definition t8 := TScalar U8.
+Definition u64 := TScalar U64.
+Definition inp t := mkNode (OInput t) [] [] [] t.
+
+Example C06_ex_dangling :
+  opt_dangling [inp t8; inp t8; mkNode OAdd [0;0] [] [] t8; mkNode OAdd [0;1] [] [APrivate] t8] (Some 3)
+  = Ok (mkPassOut [inp t8; inp t8; mkNode OAdd [0;1] [] [APrivate] t8] [Some 0; Some 1; None; Some 2] (Some 2)).
+Proof. vm_compute. reflexivity. Qed.
+
+Example C06_ex_dup :
+  opt_dup [inp t8; mkNode OAdd [0;0] [] [] t8; mkNode OAdd [0;0] [] [] t8; mkNode OMultiply [1;2] [] [] t8] (Some 3)
+  = Ok (mkPassOut [inp t8; mkNode OAdd [0;0] [] [] t8; mkNode OMultiply [1;1] [] [] t8]
+                  [Some 0; Some 1; Some 1; Some 2] (Some 2)).
+Proof. vm_compute. reflexivity. Qed.
+
+Definition c8 x := mkNode (OConstant t8 (VArr [x])) [] [] [] t8.
+Example C06_ex_const :
+  opt_const [c8 2; c8 255; mkNode OAdd [0;1] [] [] t8; inp t8; mkNode OAdd [2;3] [] [] t8;
+             mkNode OSubtract [1;0] [] [ASend 0 1] t8; c8 1] (Some 4)
+  = Ok (mkPassOut [c8 2; c8 255; c8 1; inp t8; mkNode OAdd [2;3] [] [] t8; mkNode OSubtract [1;0] [] [ASend 0 1] t8]
+                  [Some 0; Some 1; Some 2; Some 3; Some 4; Some 5; Some 2] (Some 4)).
+Proof. vm_compute. reflexivity. Qed.
+
+Example C06_ex_meta :
+  opt_meta [inp t8; inp u64; mkNode OCreateTuple [0;1] [] [] (TTuple [t8;u64]);
+            mkNode (OTupleGet 1) [2] [] [APrivate] u64;
+            mkNode (OConstant u64 (VArr [1])) [] [] [] u64;
+            mkNode (OCreateVector t8) [0;0] [] [] (TVector 2 t8); mkNode OVectorGet [5;4] [] [] t8] (Some 6)
+  = Ok (mkPassOut [inp t8; mkNode (OInput u64) [] [] [APrivate] u64;
+                   mkNode OCreateTuple [0;1] [] [] (TTuple [t8;u64]); mkNode (OTupleGet 1) [2] [] [] u64;
+                   mkNode (OConstant u64 (VArr [1])) [] [] [] u64;
+                   mkNode (OCreateVector t8) [0;0] [] [] (TVector 2 t8); mkNode OVectorGet [5;4] [] [] t8]
+                  [Some 0; Some 1; Some 2; Some 1; Some 4; Some 5; Some 0] (Some 0)).
+Proof. vm_compute. reflexivity. Qed.
+
+(* the conclusion of C06_meta_sem_partial on this instance: original and rewritten graph under
+   the transported tape *)
+Definition ex_meta_nodes : list node :=
+  [inp t8; inp u64; mkNode OCreateTuple [0;1] [] [] (TTuple [t8;u64]);
+   mkNode (OTupleGet 1) [2] [] [APrivate] u64;
+   mkNode (OConstant u64 (VArr [1])) [] [] [] u64;
+   mkNode (OCreateVector t8) [0;0] [] [] (TVector 2 t8); mkNode OVectorGet [5;4] [] [] t8].
+Definition ex_meta_tape := tape_of_list [(0, VArr [7]); (1, VArr [9])].
+Example C06_ex_meta_eval :
+  match opt_meta ex_meta_nodes (Some 6) with
+  | Ok p => (eqb (eval_graph_nodes ex_meta_nodes ex_meta_tape)
+                 (Ok [VArr [7]; VArr [9]; VTup [VArr [7]; VArr [9]]; VArr [9]; VArr [1];
+                      VTup [VArr [7]; VArr [7]]; VArr [7]]))
+            && (eqb (eval_graph_nodes (po_nodes p) (transport (po_map p) ex_meta_tape))
+                    (Ok [VArr [7]; VArr [9]; VTup [VArr [7]; VArr [9]]; VArr [9]; VArr [1];
+                         VTup [VArr [7]; VArr [7]]; VArr [7]]))
+            && eqb (po_map p) [Some 0; Some 1; Some 2; Some 1; Some 4; Some 5; Some 0]
+  | _ => false
+  end = true.
+Proof. vm_compute. reflexivity. Qed.
+
+(* A2B / B2A: B2A U8 (A2B x) is replaced by x (x : U8), B2A I8 (A2B x) is kept, A2B (B2A U8 y) is
+   replaced by y; both graphs evaluate to the same values along the map *)
+Definition ex_bits_nodes : list node :=
+  [inp t8; mkNode OA2B [0] [] [] (TArray [8] Bit); mkNode (OB2A U8) [1] [] [] t8;
+   mkNode (OB2A I8) [1] [] [] (TScalar I8); mkNode OA2B [2] [] [] (TArray [8] Bit); mkNode OAdd [2;2] [] [] t8].
+Example C06_ex_meta_bits :
+  match opt_meta ex_bits_nodes (Some 5) with
+  | Ok p => eqb (po_map p) [Some 0; Some 1; Some 0; Some 3; Some 1; Some 5]
+            && eqb (eval_graph_nodes ex_bits_nodes (tape_of_list [(0, VArr [200])]))
+                   (Ok [VArr [200]; VArr [0;0;0;1;0;0;1;1]; VArr [200]; VArr [200]; VArr [0;0;0;1;0;0;1;1]; VArr [144]])
+            && eqb (eval_graph_nodes (po_nodes p) (transport (po_map p) (tape_of_list [(0, VArr [200])])))
+                   (Ok [VArr [200]; VArr [0;0;0;1;0;0;1;1]; VArr [200]; VArr [200]; VArr [0;0;0;1;0;0;1;1]; VArr [144]])
+  | _ => false
+  end = true.
+Proof. vm_compute. reflexivity. Qed.
+
+Definition ex_opt : list node :=
+  [inp t8; mkNode (ORandom t8) [] [] [] t8; mkNode (ORandom t8) [] [] [] t8;
+   mkNode (OPRF 1 t8) [1] [] [] t8; mkNode (OPRF 2 t8) [1] [] [] t8;
+   c8 2; c8 3; mkNode OAdd [5;6] [] [] t8;
+   mkNode OAdd [0;3] [] [] t8; mkNode OAdd [0;3] [] [] t8; mkNode OAdd [8;9] [] [] t8;
+   mkNode OAdd [10;4] [] [] t8; mkNode OAdd [11;7] [] [] t8].
+Example C06_ex_optimize :
+  optimize_graph ex_opt (Some 12)
+  = Ok (mkPassOut [inp t8; mkNode (ORandom t8) [] [] [] t8; mkNode (OPRF 1 t8) [1] [] [] t8;
+                   mkNode (OPRF 2 t8) [1] [] [] t8; c8 5; mkNode OAdd [0;2] [] [] t8;
+                   mkNode OAdd [5;5] [] [] t8; mkNode OAdd [6;3] [] [] t8; mkNode OAdd [7;4] [] [] t8]
+                  [Some 0; Some 1; None; Some 2; Some 3; None; None; Some 4; Some 5; Some 5; Some 6; Some 7; Some 8]
+                  (Some 8)).
+Proof. vm_compute. reflexivity. Qed.
+(* the hypotheses of the semantic theorems are satisfiable: the example graph evaluates *)
+Example C06_ex_eval :
+  eval_graph_nodes ex_opt (tape_of_list [(0, VArr [7]); (1, VArr [9]); (2, VArr [1]); (3, VArr [100]); (4, VArr [200])])
+  = Ok [VArr [7]; VArr [9]; VArr [1]; VArr [100]; VArr [200]; VArr [2]; VArr [3]; VArr [5]; VArr [107];
+        VArr [107]; VArr [214]; VArr [158]; VArr [163]].
+Proof. vm_compute. reflexivity. Qed.
+
+(* the hypotheses of C06_optimize_sem_partial_simple are satisfiable by a graph on which all
+   four passes act: a tuple getter, a foldable constant expression, a duplicated sub-expression
+   and, after these, dangling nodes *)
+Definition ex_h : list node :=
+  [inp t8; mkNode (ORandom t8) [] [] [] t8; mkNode OCreateTuple [0;1] [] [] (TTuple [t8;t8]);
+   mkNode (OTupleGet 1) [2] [] [] t8; c8 2; c8 3; mkNode OAdd [4;5] [] [] t8;
+   mkNode OAdd [3;6] [] [] t8; mkNode OAdd [3;6] [] [] t8; mkNode OAdd [7;8] [] [] t8].
+Definition infer_ex (o : op) (dts : list ty) : ty :=
+  match o with
+  | OInput t | ORandom t | OConstant t _ => t
+  | OCreateTuple => TTuple dts
+  | _ => t8
+  end.
+Example C06_ex_hyps :
+  infer_const infer_ex /\ typed_nodes infer_ex ex_h /\ const_typed ex_h /\ few_deps ex_h /\
+  simple_ops ex_h /\ meta_typed ex_h /\ nokey ex_h.
+Proof.
+  split; [intros t v; reflexivity|]. split.
+  { intros i nd E.
+    do 10 (destruct i as [|i]; [injection E as <-; eexists; split; [cbv; reflexivity|reflexivity]|]).
+    destruct i; discriminate. }
+  split.
+  { intros nd t v I. repeat (destruct I as [<-|I]; [cbn; intros H; try discriminate; now injection H as <- _|]). destruct I. }
+  split.
+  { intros nd I. repeat (destruct I as [<-|I]; [vm_compute; reflexivity|]). destruct I. }
+  split.
+  { intros nd I. repeat (destruct I as [<-|I]; [reflexivity|]). destruct I. }
+  split.
+  { intros i nd dts E D.
+    do 10 (destruct i as [|i]; [injection E as <-; cbv in D; injection D as <-; cbn;
+                                first [exact I | reflexivity | (eexists; split; reflexivity)]|]).
+    destruct i; discriminate. }
+  { intros nd I Ft. repeat (destruct I as [<-|I]; [try discriminate Ft; intros nd' deps E; unfold node_key; rewrite E; reflexivity|]). destruct I. }
+Qed.
+
+Example C06_ex_hyps_optimize :
+  optimize_graph ex_h (Some 9)
+  = Ok (mkPassOut [inp t8; mkNode (ORandom t8) [] [] [] t8; c8 5; mkNode OAdd [1;2] [] [] t8;
+                   mkNode OAdd [3;3] [] [] t8]
+                  [Some 0; Some 1; None; Some 1; None; None; Some 2; Some 3; Some 3; Some 4] (Some 4)).
+Proof. vm_compute. reflexivity. Qed.
+
 Print Assumptions C06_join_maps_length.
+Print Assumptions C06_eval_characterised.
+Print Assumptions C06_geval_characterised.
+Print Assumptions C06_eval_is_geval.
+Print Assumptions C06_valuation_deterministic.
+Print Assumptions C06_dangling_sem.
+Print Assumptions C06_dangling_sem_generic.
+Print Assumptions C06_dangling_inputs_annots.
+Print Assumptions C06_dup_sem.
+Print Assumptions C06_dup_sem_transport.
+Print Assumptions C06_dup_sem_generic.
+Print Assumptions C06_dup_inputs.
+Print Assumptions C06_dup_annots.
+Print Assumptions C06_const_sem.
+Print Assumptions C06_const_inputs.
+Print Assumptions C06_const_annots.
+Print Assumptions C06_meta_inputs.
+Print Assumptions C06_meta_sem_partial.
+Print Assumptions C06_optimize_inputs.
+Print Assumptions C06_optimize_sem_partial.
+Print Assumptions C06_optimize_sem_transport_partial.
+Print Assumptions C06_optimize_sem_partial_simple.
+Print Assumptions C06_const_preserves_hyps.
+Print Assumptions C06_optimize_annots_partial.
+Print Assumptions C06_meta_annots_partial.
